@@ -377,7 +377,7 @@ pub fn run(seed: u64, tier: &str, out: &Path, _extra: &[(String, String)]) -> st
         }
 
         // ---- generated histories ----
-        let n_cases = if thorough { 10_000 } else { 1_000 };
+        let n_cases = if thorough { 8_000 } else { 800 };
         for ci in 0..n_cases {
             let mut r = rng.fork(ci as u64);
             let n = match r.below(10) { 0 => 1, 1..=4 => 2, 5..=8 => 3, _ => 4 };
@@ -410,7 +410,11 @@ pub fn run(seed: u64, tier: &str, out: &Path, _extra: &[(String, String)]) -> st
                     }
                     28..=50 => {
                         // REG2: right/wrong link x well-formed/short/long x fresh/same id
-                        let i = match pending { Some(p) if r.chance(3, 4) => p, _ => pick_link(&mut r, n) };
+                        let i = match pending {
+                            Some(p) if r.chance(3, 5) => p,
+                            Some(p) if n > 1 && r.chance(3, 4) => (p + 1 + r.below(n as u64 - 1) as usize) % n, // another uplink
+                            _ => pick_link(&mut r, n),
+                        };
                         let len = if r.chance(if style == 1 { 5 } else { 3 }, 6) { 258 } else { *r.pick(&[2usize, 3, 100, 257, 259, 300]) };
                         let id = if r.chance(1, 8) { w.reg.srtla_id } else { *r.pick(&pool) };
                         Op::Reg2(i, len, id)
